@@ -57,6 +57,29 @@ func drawProgram(t *rapid.T) *pkgProg {
 			env.NamedComp = append(env.NamedComp, d)
 			members = append(members, progen.NamedT(d))
 		}
+		// user calls on the named members under names of different lengths: the helper for the unnamed type
+		// (a field of TieS without a call of its own) is then chosen among them, and "shortest" and
+		// "alphabetically first" disagree for some of these names
+		if nnamed >= 2 && rapid.Bool().Draw(t, "tienamedcalls") {
+			sfxs := rapid.Permutation([]string{"Z", "Ab", "IDs", "Counts", "B", "Aa1", "Yy"}).Draw(t, "tiesfx")
+			kind := pick(t, "tienamedkind", []string{"equal", "compare", "hash"})
+			for j, m := range members {
+				sfx := fmt.Sprintf("%s%d", sfxs[j], i)
+				var c *progen.Call
+				switch kind {
+				case "equal":
+					c = progen.Equal(p.T(m), sfx)
+				case "compare":
+					c = progen.Compare(p.T(m), sfx)
+				default:
+					c = progen.Hash(p.T(m), sfx)
+				}
+				p.Add("%s", c.Render(progen.FormBody, fmt.Sprintf("WN%d_%d", i, j)))
+				out.plugins[kind] = true
+				out.calls = append(out.calls, kind+":"+m.Str(p.Q())+" as "+sfx)
+				used.Claim(kind + "|" + progen.AssignKey(m))
+			}
+		}
 		members = append(members, u)
 		// random order of the members as fields
 		perm := rapid.Permutation(members).Draw(t, "tieorder")
